@@ -481,3 +481,61 @@ harness!(c13_w_any_value_scalars, 8, [scalar_case::<I64, true>()]);
 // structured values: see `case` — measured not to fit; thorough tier only
 harness!(c13_t_any_value_text_keys_depth1, 17, [case::<1, false, false, false>()]);
 harness!(c13_t_any_value_any_keys_depth1, 17, [case::<1, true, false, false>()]);
+
+/// Structured values of CONCRETE shape (a table of token sequences; every arm of a harness runs
+/// one row, so nothing about the shape is symbolic inside an arm: ~6 s per arm instead of > 15 min
+/// for a symbolic shape). Row format: the choices `Tokens::<2, true, false>` consumes left to right —
+/// value kind (0..=5 scalar, 6 seq, 7 map), for containers the entry count, for map entries the
+/// key kind (0..=7) before the value.
+const SHAPES: [[u8; 16]; 18] = [
+    /*  0 */ [TEXT, 0, 0, 0, 0, 0, 0, 0, 0, 0, 0, 0, 0, 0, 0, 0],
+    /*  1 */ [SEQ, 0, 0, 0, 0, 0, 0, 0, 0, 0, 0, 0, 0, 0, 0, 0],
+    /*  2 */ [SEQ, 2, I64, F64, 0, 0, 0, 0, 0, 0, 0, 0, 0, 0, 0, 0],
+    /*  3 */ [SEQ, 2, TEXT, BIN, 0, 0, 0, 0, 0, 0, 0, 0, 0, 0, 0, 0],
+    /*  4 */ [SEQ, 1, SEQ, 2, BOOL, NULL, 0, 0, 0, 0, 0, 0, 0, 0, 0, 0],
+    /*  5 */ [MAP, 0, 0, 0, 0, 0, 0, 0, 0, 0, 0, 0, 0, 0, 0, 0],
+    /*  6 */ [MAP, 1, TEXT, I64, 0, 0, 0, 0, 0, 0, 0, 0, 0, 0, 0, 0],
+    /*  7 */ [MAP, 2, TEXT, TEXT, TEXT, F64, 0, 0, 0, 0, 0, 0, 0, 0, 0, 0],
+    /*  8 */ [MAP, 1, TEXT, SEQ, 2, I64, TEXT, 0, 0, 0, 0, 0, 0, 0, 0, 0],
+    /*  9 */ [MAP, 1, TEXT, MAP, 1, TEXT, BOOL, 0, 0, 0, 0, 0, 0, 0, 0, 0],
+    /* 10 */ [SEQ, 1, MAP, 2, TEXT, NULL, TEXT, BIN, 0, 0, 0, 0, 0, 0, 0, 0],
+    /* 11 */ [MAP, 1, NULL, I64, 0, 0, 0, 0, 0, 0, 0, 0, 0, 0, 0, 0],
+    // non-text keys
+    /* 12 */ [MAP, 1, BOOL, I64, 0, 0, 0, 0, 0, 0, 0, 0, 0, 0, 0, 0],
+    /* 13 */ [MAP, 1, I64, I64, 0, 0, 0, 0, 0, 0, 0, 0, 0, 0, 0, 0],
+    /* 14 */ [MAP, 1, F64, I64, 0, 0, 0, 0, 0, 0, 0, 0, 0, 0, 0, 0],
+    /* 15 */ [MAP, 1, BIN, I64, 0, 0, 0, 0, 0, 0, 0, 0, 0, 0, 0, 0],
+    /* 16 */ [MAP, 1, SEQ, I64, 0, 0, 0, 0, 0, 0, 0, 0, 0, 0, 0, 0],
+    /* 17 */ [MAP, 1, MAP, I64, 0, 0, 0, 0, 0, 0, 0, 0, 0, 0, 0, 0],
+];
+
+fn shape_case<const ROW: usize>() {
+    let tokens = Tokens::<2, true, false> {
+        shape: SHAPES[ROW],
+        at: Cell::new(0),
+        scalars: Cell::new(0),
+        log: Cell::new([(0, 0); 8]),
+    };
+    let mut rec = Rec::new();
+    let r = verif::stream_any_value(emit::Value::from_sval(&tokens), &mut rec);
+    assert!(r.is_ok(), "the adapter does not fail on a well-formed token sequence");
+    assert!(rec.depth == 0, "output tokens are balanced: nothing is left open");
+    let n_in = tokens.scalars.get();
+    assert!(rec.scalars == n_in, "every scalar of the input appears exactly once in the output");
+    let log = tokens.log.get();
+    let mut i = 0;
+    while i < 8 {
+        if i < n_in {
+            assert!(rec.log[i] == log[i], "scalars keep their order, type and value");
+        }
+        i += 1;
+    }
+    kani::cover!(rec.scalars == n_in, "streamed to the end");
+}
+
+harness!(c13_q_any_value_shapes_sequences, 10, [shape_case::<0>(), shape_case::<1>(), shape_case::<2>(), shape_case::<3>(), shape_case::<4>()]);
+harness!(c13_q_any_value_shapes_text_key_maps, 10, [shape_case::<5>(), shape_case::<6>(), shape_case::<7>(), shape_case::<8>(), shape_case::<9>(), shape_case::<10>(), shape_case::<11>()]);
+// non-text map keys: the property demands "no panic"; on the pinned tree these reach `todo!()`
+// (any_value.rs, `if self.in_map_key { todo!() }`): see known_findings.json
+harness!(c13_t_any_value_shapes_scalar_keys, 10, [shape_case::<12>(), shape_case::<13>(), shape_case::<14>()]);
+harness!(c13_t_any_value_shapes_complex_keys, 10, [shape_case::<15>(), shape_case::<16>(), shape_case::<17>()]);
